@@ -25,9 +25,26 @@ struct Entry {
     align: usize,
     front: usize,
     state: u8, // 0 empty, 1 live, 2 tombstone
+    /// guard-page mode: start and length of the mapping (0 = ordinary red-zone block)
+    map_base: usize,
+    map_len: usize,
 }
 
-const EMPTY: Entry = Entry { user: 0, size: 0, align: 0, front: 0, state: 0 };
+const EMPTY: Entry = Entry { user: 0, size: 0, align: 0, front: 0, state: 0, map_base: 0, map_len: 0 };
+
+// Guard-page mode ("electric fence"): every tracked block gets its own mapping and ends right
+// before an inaccessible page, and is unmapped when freed.  An out-of-bounds READ past the end or
+// any access after free then kills the worker with SIGSEGV, which the supervisor reports as a crash.
+extern "C" {
+    fn mmap(addr: *mut u8, len: usize, prot: i32, flags: i32, fd: i32, off: i64) -> *mut u8;
+    fn munmap(addr: *mut u8, len: usize) -> i32;
+    fn mprotect(addr: *mut u8, len: usize, prot: i32) -> i32;
+}
+const PAGE: usize = 4096;
+const PROT_NONE: i32 = 0;
+const PROT_RW: i32 = 3;
+const MAP_PRIVATE_ANON: i32 = 0x22;
+static GUARD_MODE: AtomicBool = AtomicBool::new(false);
 
 struct Tables {
     live: [Entry; SLOTS],
@@ -47,6 +64,7 @@ pub static ERR_REDZONE: AtomicU64 = AtomicU64::new(0);
 pub static ERR_UAF_WRITE: AtomicU64 = AtomicU64::new(0);
 pub static ALLOCS: AtomicU64 = AtomicU64::new(0);
 pub static FREES: AtomicU64 = AtomicU64::new(0);
+pub static GUARDED: AtomicU64 = AtomicU64::new(0);
 static LAST_LAYOUT_DETAIL: [AtomicUsize; 4] = [AtomicUsize::new(0), AtomicUsize::new(0), AtomicUsize::new(0), AtomicUsize::new(0)];
 
 pub struct Ledger;
@@ -116,6 +134,32 @@ unsafe impl GlobalAlloc for Ledger {
         if !ACTIVE.load(Ordering::Relaxed) {
             return System.alloc(layout);
         }
+        if GUARD_MODE.load(Ordering::Relaxed) && layout.align() <= 64 {
+            let need = layout.size().max(1);
+            let data_len = (need + RZ + PAGE - 1) / PAGE * PAGE;
+            let total = data_len + PAGE;
+            let base = mmap(std::ptr::null_mut(), total, PROT_RW, MAP_PRIVATE_ANON, -1, 0);
+            if base as isize != -1 && !base.is_null() {
+                mprotect(base.add(data_len), PAGE, PROT_NONE);
+                let end = base as usize + data_len;
+                let user = (end - need) & !(layout.align() - 1);
+                // pattern before the block and in the alignment slack behind it
+                let front = (user - base as usize).min(RZ);
+                std::ptr::write_bytes((user - front) as *mut u8, RZ_BYTE, front);
+                let slack = end - (user + layout.size());
+                std::ptr::write_bytes((user + layout.size()) as *mut u8, RZ_BYTE, slack);
+                lock();
+                let ok = insert(Entry { user, size: layout.size(), align: layout.align(), front, state: 1, map_base: base as usize, map_len: total });
+                unlock();
+                if ok {
+                    LIVE_COUNT.fetch_add(1, Ordering::Relaxed);
+                    ALLOCS.fetch_add(1, Ordering::Relaxed);
+                    GUARDED.fetch_add(1, Ordering::Relaxed);
+                    return user as *mut u8;
+                }
+                munmap(base, total);
+            }
+        }
         let front = RZ.max(layout.align());
         let total = front + layout.size() + RZ;
         let base = System.alloc(Layout::from_size_align_unchecked(total, layout.align()));
@@ -126,7 +170,7 @@ unsafe impl GlobalAlloc for Ledger {
         std::ptr::write_bytes(base.add(front + layout.size()), RZ_BYTE, RZ);
         let user = base.add(front);
         lock();
-        let ok = insert(Entry { user: user as usize, size: layout.size(), align: layout.align(), front, state: 1 });
+        let ok = insert(Entry { user: user as usize, size: layout.size(), align: layout.align(), front, state: 1, map_base: 0, map_len: 0 });
         unlock();
         if !ok {
             // table full: fall back to an untracked block (never happens with pools of 6 tendrils)
@@ -176,6 +220,40 @@ unsafe impl GlobalAlloc for Ledger {
                     LAST_LAYOUT_DETAIL[2].store(e.align, Ordering::Relaxed);
                     LAST_LAYOUT_DETAIL[3].store(layout.align(), Ordering::Relaxed);
                 }
+                if e.map_len != 0 {
+                    // guard-page block: check the patterns, then unmap (later accesses fault)
+                    let mut damaged = false;
+                    let p = (e.user - e.front) as *const u8;
+                    for k in 0..e.front {
+                        if *p.add(k) != RZ_BYTE {
+                            damaged = true;
+                        }
+                    }
+                    let end = e.map_base + e.map_len - PAGE;
+                    let mut q = e.user + e.size;
+                    while q < end {
+                        if *(q as *const u8) != RZ_BYTE {
+                            damaged = true;
+                        }
+                        q += 1;
+                    }
+                    if damaged {
+                        ERR_REDZONE.fetch_add(1, Ordering::Relaxed);
+                    }
+                    munmap(e.map_base as *mut u8, e.map_len);
+                    lock();
+                    let pos = TABLES.qpos;
+                    let old = TABLES.quarantine[pos];
+                    let mut gone = e;
+                    gone.map_len = usize::MAX; // marker: memory no longer exists
+                    TABLES.quarantine[pos] = gone;
+                    TABLES.qpos = (pos + 1) % QUARANTINE;
+                    unlock();
+                    if old.state == 1 && old.map_len != usize::MAX {
+                        check_poison_and_release(&old);
+                    }
+                    return;
+                }
                 let base = (e.user - e.front) as *const u8;
                 let mut damaged = false;
                 for k in 0..e.front {
@@ -198,7 +276,7 @@ unsafe impl GlobalAlloc for Ledger {
                 TABLES.quarantine[pos] = e;
                 TABLES.qpos = (pos + 1) % QUARANTINE;
                 unlock();
-                if old.state == 1 {
+                if old.state == 1 && old.map_len != usize::MAX {
                     check_poison_and_release(&old);
                 }
             },
@@ -216,6 +294,7 @@ pub struct Report {
     pub leaked_blocks: u64,
     pub allocs: u64,
     pub frees: u64,
+    pub guarded: u64,
     pub layout_detail: [usize; 4],
 }
 
@@ -250,8 +329,15 @@ pub fn is_active() -> bool {
     ACTIVE.load(Ordering::Relaxed)
 }
 
+/// Choose the block layout for the next regions: red zones + quarantine (false) or one mapping
+/// per block ending at a guard page (true).
+pub fn set_guard_mode(on: bool) {
+    GUARD_MODE.store(on, Ordering::SeqCst);
+}
+
 /// Open a tracking region.  Everything allocated until `end_region` is tracked.
 pub fn begin_region() {
+    GUARDED.store(0, Ordering::Relaxed);
     ERR_DOUBLE_FREE.store(0, Ordering::Relaxed);
     ERR_LAYOUT.store(0, Ordering::Relaxed);
     ERR_REDZONE.store(0, Ordering::Relaxed);
@@ -285,7 +371,7 @@ pub fn end_region() -> Report {
         TABLES.qpos = 0;
         unlock();
         for e in q.iter() {
-            if e.state == 1 {
+            if e.state == 1 && e.map_len != usize::MAX {
                 check_poison_and_release(e);
             }
         }
@@ -323,6 +409,7 @@ pub fn end_region() -> Report {
         leaked_blocks: leaked,
         allocs: ALLOCS.load(Ordering::Relaxed),
         frees: FREES.load(Ordering::Relaxed),
+        guarded: GUARDED.load(Ordering::Relaxed),
         layout_detail: [
             LAST_LAYOUT_DETAIL[0].load(Ordering::Relaxed),
             LAST_LAYOUT_DETAIL[1].load(Ordering::Relaxed),
